@@ -130,7 +130,7 @@ type corpusEntry struct {
 func originCorpus() []corpusEntry {
 	e := func(n, s string) corpusEntry { return corpusEntry{name: n, bytes: []byte(s)} }
 	big := "HTTP/1.1 200 OK\r\nX-Big: " + strings.Repeat("a", 11<<20) + "\r\nContent-Length: 0\r\n\r\n"
-	return []corpusEntry{
+	out := []corpusEntry{
 		e("binary", "\x00\x01\x02\xff\xfe\r\n\r\n\x80\x81 binary \x00"),
 		e("ssh_banner", "SSH-2.0-OpenSSH_8.9p1\r\n"),
 		e("smtp_banner", "220 mail.example.com ESMTP ready\r\n"),
@@ -152,6 +152,41 @@ func originCorpus() []corpusEntry {
 		e("unknown_transfer_encoding", "HTTP/1.1 200 OK\r\nTransfer-Encoding: bogus\r\n\r\nhello"),
 		{name: "oversized_header", bytes: []byte(big), cuts: []int{1 << 20, 10<<20 + 1024, len(big)}},
 	}
+	return append(out, controlByteHeaders()...)
+}
+
+// controlByteHeaders: a valid status line followed by one header line that carries a control (or otherwise
+// unusual) byte at the start / middle / end of its name or of its value, then a complete rest of the message.
+// The parse error text of such a line contains the raw byte, which must not make the proxy's own 502
+// (whose Warning header quotes the error) unreadable.
+func controlByteHeaders() []corpusEntry {
+	var out []corpusEntry
+	bytesPool := []struct {
+		name string
+		b    byte
+	}{{"nul", 0x00}, {"soh", 0x01}, {"bel", 0x07}, {"bs", 0x08}, {"esc", 0x1b}, {"del", 0x7f}, {"x80", 0x80}, {"xff", 0xff}, {"cr", '\r'}, {"tab", '\t'}}
+	for _, bp := range bytesPool {
+		for _, where := range []string{"name_start", "name_middle", "name_end", "value_start", "value_middle", "value_end"} {
+			name, value := "X-Ctl", "abcd"
+			c := string([]byte{bp.b})
+			switch where {
+			case "name_start":
+				name = c + name
+			case "name_middle":
+				name = name[:2] + c + name[2:]
+			case "name_end":
+				name += c
+			case "value_start":
+				value = c + value
+			case "value_middle":
+				value = value[:2] + c + value[2:]
+			case "value_end":
+				value += c
+			}
+			out = append(out, corpusEntry{name: "ctl_" + bp.name + "_" + where, bytes: []byte("HTTP/1.1 200 OK\r\n" + name + ": " + value + "\r\nContent-Length: 2\r\n\r\nhi")})
+		}
+	}
+	return out
 }
 
 func clientCorpus() []corpusEntry {
@@ -1531,7 +1566,7 @@ func main() {
 	rep.Coverage["distinct_nontrivial"] = rep.Counter("nontrivial")
 	rep.Coverage["distinct_outcomes"] = len(agg.Keys["outcomes"])
 	rep.Coverage["exhaustive"] = rep.Incomplete == ""
-	rep.Coverage["rule"] = "modifier configurations {none, har.NewLogger(), martianlog.NewLogger(), marbl.NewModifier} as request+response modifier for the truncation family; truncate: response script x client protocol x {fresh, reused upstream connection} x {GET, POST} x every offset k in 0..len(script) (origin writes k bytes, closes); dial: first dial fails with {refused, timeout (net.Error), io.EOF, io.ErrClosedPipe, io.ErrUnexpectedEOF, generic error} on the plain-HTTP path (GET/POST, the transport dials) and on the CONNECT path (the proxy's connect() dials), or is accepted-then-closed, x second request afterwards / already pipelined; garbage: 20 non-HTTP/malformed origin answers x every prefix (oversized header: 3 offsets); client: 35 client byte streams x every prefix (3 oversized ones: listed offsets) and every single-byte corruption (replacement set) of 3 valid requests; mitm: proxy with SetMITM, 23 CONNECT request-line/Host shapes x 9 continuations after the 200 (ClientHello with SNI / without SNI / TLS 1.2 without SNI, plaintext request, two kinds of garbage, a lone 0x16, close, close without reading) and a no-SNI ClientHello cut at every offset, each followed by a marker request on a fresh connection; every other scenario continues with a well-formed request for a marker response on the same client connection. Non-trivial: the fault happens after at least one byte (k > 0), or is a dial fault or a corruption."
+	rep.Coverage["rule"] = "modifier configurations {none, har.NewLogger(), martianlog.NewLogger(), marbl.NewModifier} as request+response modifier for the truncation family; truncate: response script x client protocol x {fresh, reused upstream connection} x {GET, POST} x every offset k in 0..len(script) (origin writes k bytes, closes); dial: first dial fails with {refused, timeout (net.Error), io.EOF, io.ErrClosedPipe, io.ErrUnexpectedEOF, generic error} on the plain-HTTP path (GET/POST, the transport dials) and on the CONNECT path (the proxy's connect() dials), or is accepted-then-closed, x second request afterwards / already pipelined; garbage: 20 non-HTTP/malformed origin answers and 60 answers with a valid status line followed by a header line carrying one of {NUL, SOH, BEL, BS, ESC, DEL, 0x80, 0xff, bare CR, TAB} at the start/middle/end of its name or value, x every prefix (oversized header: 3 offsets); client: 35 client byte streams x every prefix (3 oversized ones: listed offsets) and every single-byte corruption (replacement set) of 3 valid requests; mitm: proxy with SetMITM, 23 CONNECT request-line/Host shapes x 9 continuations after the 200 (ClientHello with SNI / without SNI / TLS 1.2 without SNI, plaintext request, two kinds of garbage, a lone 0x16, close, close without reading) and a no-SNI ClientHello cut at every offset, each followed by a marker request on a fresh connection; every other scenario continues with a well-formed request for a marker response on the same client connection. Non-trivial: the fault happens after at least one byte (k > 0), or is a dial fault or a corruption."
 	rep.Coverage["bounds"] = fmt.Sprintf("tier %s: %d scenarios %v; scripts %d; one client connection (+1 fresh probe connection for client streams); loopback-TCP re-run of every 9th (quick) / 197th (thorough) scenario", tier, total, fams, len(scripts(tier)))
 	rep.Assumptions = []string{
 		"an origin that stalls without closing is not modelled (would need the proxy's 5-minute timeout)",
